@@ -166,12 +166,14 @@ def columnsOf : Expr → List String
   | .f2 _ a b => columnsOf a ++ columnsOf b
   | .agg _ e => columnsOf e
 
-/-- Input characterisation of the open finding `orderby-type-divergent-column-panic`: a sorted, non-aggregating
-    main phase over at least two partitions that collects (select item or sort key) a column whose basic type is
-    numeric in one partition and string in another (`divergent`, a catalogue fact read by the harness from the
-    column handles).  Merging two ORDERED partial results brings every column pair to
-    `EncodingType::least_upper_bound`, which is `unimplemented!` for {I64, F64} × {Str, OptStr}; a partial result
-    that already went through `Val` merges with anything, so the outcome depends on which pair is merged first. -/
+/-- Input characterisation of the FIXED finding `orderby-type-divergent-column-panic` (/repo c33fac6): a sorted,
+    non-aggregating main phase over at least two partitions that collects (select item or sort key) a column whose
+    basic type is numeric in one partition and string in another (`divergent`, a catalogue fact read by the harness
+    from the column handles).  Merging two ORDERED partial results brings every column pair to
+    `EncodingType::least_upper_bound`, which was `unimplemented!` for {I64, F64} × {Str, OptStr} (worker panic,
+    schedule dependent); it is `Val` now, so these statements answer like any other: the model predicts them and the
+    specification judges the answer.  Kept as a model predicate that names the regression witnesses
+    (`sweep:mixed:ordered:*`); it suppresses nothing. -/
 def orderedDivergent (plan : TaskPlan) (divergent : List String) : Bool :=
   decide (plan.partitions ≥ 2) && !plan.norm.main.orderBy.isEmpty && plan.norm.main.aggregate.isEmpty
   && (plan.norm.main.projection.any (fun ci => (columnsOf ci.expr).any divergent.contains)
@@ -195,9 +197,9 @@ def modelRun (p : Parsed) (cat : Catalog) (rows : Nat) (obs : Obs) (divergent : 
   | .err e => "err:" ++ toString e
   | .fault _ => "panic"
   | .ok plan =>
-      -- schedule-dependent outcome (answer or worker panic, by the order in which partial results are merged):
-      -- the model does not predict
-      if orderedDivergent plan divergent then "?" else
+      -- (`divergent` is no longer consulted: since /repo c33fac6 a type-divergent column merges through `Val` in
+      -- every merge order, so the outcome is predicted like any other statement)
+      let _ := divergent
       match obs with
       | .err k => if k = "canceled" then "ok" else "?"
       | _ =>
@@ -263,15 +265,13 @@ def groupsByComputedKey (main : NormalFormQuery) : Bool :=
   !main.aggregate.isEmpty
   && main.projection.any (fun ci => isBoolExpr ci.expr || !ci.expr.hasColumn)
 
-def classify (p : Parsed) (cat : Catalog) (verdict sig : String) (divergent : List String := []) : String :=
+def classify (p : Parsed) (cat : Catalog) (verdict sig : String) (_divergent : List String := []) : String :=
   if verdict = "OK" then "" else
   let lost := verdict = "BAD lost-answer" || verdict = "BAD hang"
   match runFront p cat with
   | .ok plan =>
       if lost && groupKeySig sig && groupsByComputedKey plan.norm.main then "groupby-computed-key"
       else if verdict = "BAD column-count" && quotedStar p then "C12-quoted-star-is-wildcard"
-      else if verdict = "BAD lost-answer" && containsSub sig "lub not implemented for" && orderedDivergent plan divergent then
-        "orderby-type-divergent-column-panic"
       else ""
   | _ => ""
 
